@@ -2,7 +2,7 @@
 """Generates the MC_Search_*.cfg family from one table (single source of truth)."""
 BASE = dict(NV=3, MaxE=3, Lens="{1, 2}", Spds="{1}", Heads="{0}", HVals="{0, 1000, 2000}", Dirs='{"fwd", "rev"}',
             TieVals="{FALSE}", MaxBad=0, Limits="<- NoLimits", Delays="<- NoDelay", Weights="<- DistOnly",
-            Surs="{0}", NoDst="TRUE", OkSubsets="FALSE", NeedConsistent="FALSE")
+            Surs="{0}", CUs="<- BaseCU", NoDst="TRUE", OkSubsets="FALSE", NeedConsistent="FALSE")
 INV = "TreeEdgeOK TreeRooted TreeMono TreeAllowed AtDone IterBound SizeBound"
 V = {
  "q": {},
@@ -13,6 +13,8 @@ V = {
  "delay": dict(Heads="{0, 90, 180}", Delays="<- SomeDelay", Weights="<- TimeOnly", HVals="{0, 3000}", MaxE=3, NoDst="FALSE", TieVals="{FALSE, TRUE}"),
  "front_q": dict(MaxBad=1, OkSubsets="TRUE", HVals="{0, 2000}", MaxE=3, NoDst="TRUE", Dirs='{"fwd"}'),
  "front": dict(MaxBad=2, OkSubsets="TRUE", HVals="{0, 2000}", MaxE=4, NoDst="TRUE", Dirs='{"fwd"}'),
+ "units_q": dict(Lens="{36, 72}", Spds="{1, 2}", Weights="<- Blend", CUs="<- MixedCU", HVals="{0, 30}", MaxE=2, NoDst="FALSE", Dirs='{"fwd"}'),
+ "units": dict(Lens="{36, 72}", Spds="{1, 2}", Weights="<- Blend", CUs="<- MixedCU", HVals="{0, 30}", MaxE=3, NoDst="FALSE"),
  "limits_q": dict(Limits="<- BothLimits", HVals="{0, 2000}", MaxE=3),
  "limits": dict(Limits="<- AllLimits", HVals="{0, 2000}", MaxE=4, Dirs='{"fwd"}'),
 }
